@@ -872,6 +872,53 @@ theorem clip_length_conserved {E : Engine} {far : Pt → List Path → Prop} (hE
       rw [f1, f2]; exact ⟨rfl, rfl⟩
   exact measure_partition hν _ _ _ (fun p hp => (key p hp).1) (fun p hp => (key p hp).2)
 
+/-! ### S2 for MultiPolygons, `clip` and the area identities in terms of the operands' interiors (C04X) -/
+
+/-- [T] **spec adequacy S2 for a valid MultiPolygon, proved**: at every point off the rings the
+even-odd parity over all rings of all members is membership in some member. -/
+theorem evenOdd_eq_inside_multi (a : List Poly) (p : Pt) (ha : multiPolyValid a = true)
+    (hoa : offRings p a) : evenOddRings p (rings a) = mpInside p a :=
+  evenOdd_multi p a
+    (fun q hq => layered_of_valid_off (multiPolyValid_members ha q hq) (offRings_member hoa hq))
+    (members_apart ha p hoa)
+
+/-- [T] **`clip` keeps exactly the parts of the line inside the polygon** (inverted: outside), for a
+valid (Multi)Polygon, every engine meeting the specification and every point of the line off the rings
+and far from them: it lies on `clip(ls, false)` iff it is inside, on `clip(ls, true)` iff it is not. -/
+theorem clip_partition_valid {E : Engine} {far : Pt → List Path → Prop} (hE : EngineSpec E far)
+    (a : List Poly) (ls : List (List Pt)) (p : Pt) (ha : multiPolyValid a = true) (hoa : offRings p a)
+    (hfar : far p ((rings a).map ringToShapePath)) (hon : onLines p ls = true) :
+    onLines p (clip E a ls false) = mpInside p a ∧ onLines p (clip E a ls true) = !(mpInside p a) := by
+  have h := clip_partition hE a ls p (valid_rings_closed a (multiPolyValid_members ha)) hfar hon
+  rw [evenOdd_eq_inside_multi a p ha hoa] at h
+  exact h
+
+/-- [T] **the area identities for the results of the four operations on valid operands, in terms of
+the operands' interiors**: as `booleanOp_area_identities`, with `area(A)`, `area(B)` the measures of
+`{p | inside A p}`, `{p | inside B p}`; `hfo`: a far point is off the rings. -/
+theorem booleanOp_area_identities_valid {E : Engine} {far : Pt → List Path → Prop} (hE : EngineSpec E far)
+    (a b : List Poly) (ha : multiPolyValid a = true) (hb : multiPolyValid b = true)
+    (hfo : ∀ p, far p ((rings a).map ringToShapePath ++ (rings b).map ringToShapePath) →
+      offRings p a ∧ offRings p b)
+    {μ : Region → Rat}
+    (hμ : AdditiveOn (fun p => far p ((rings a).map ringToShapePath ++ (rings b).map ringToShapePath)) μ) :
+    let R : OpType → Region := fun op p => mpInside p (booleanOp E a b op)
+    let A : Region := fun p => mpInside p a
+    let B : Region := fun p => mpInside p b
+    (μ (R .union) + μ (R .intersection) = μ A + μ B ∧
+     μ (R .difference) = μ A - μ (R .intersection) ∧
+     μ (R .xor) = μ (R .union) - μ (R .intersection)) ∧
+    ∀ op, μ (R op) = expectedArea op (μ A) (μ B) (μ (R .intersection)) := by
+  intro R A B
+  have h := booleanOp_area_identities hE a b (valid_rings_closed a (multiPolyValid_members ha))
+    (valid_rings_closed b (multiPolyValid_members hb)) hμ
+  have eA : μ (fun p => evenOddRings p (rings a)) = μ A :=
+    hμ.congr _ _ (fun p hp => evenOdd_eq_inside_multi a p ha (hfo p hp).1)
+  have eB : μ (fun p => evenOddRings p (rings b)) = μ B :=
+    hμ.congr _ _ (fun p hp => evenOdd_eq_inside_multi b p hb (hfo p hp).2)
+  simp only [eA, eB] at h
+  exact h
+
 /-! ### The oracle's membership test is the region of the theorems -/
 
 private theorem locateParts_areal (ps : List Poly) (p : Pt) :
@@ -1129,5 +1176,21 @@ example : sampleMeasure [(⟨1, 1⟩, 3), (⟨3, 3⟩, 1 / 2)] (opRegion .xor (f
     sampleMeasure [(⟨1, 1⟩, 3), (⟨3, 3⟩, 1 / 2)] (opRegion .union (fun p => polyInside p sq) (fun p => polyInside p sqHole)) -
     sampleMeasure [(⟨1, 1⟩, 3), (⟨3, 3⟩, 1 / 2)] (opRegion .intersection (fun p => polyInside p sq) (fun p => polyInside p sqHole)) :=
   (area_identities (sampleMeasure_additive (fun _ => True) _ (fun _ _ => trivial)) _ _).2.2
+
+example : evenOddRings ⟨3, 3⟩ (rings [sqHole, sqInHole]) = mpInside ⟨3, 3⟩ [sqHole, sqInHole] :=
+  evenOdd_eq_inside_multi [sqHole, sqInHole] ⟨3, 3⟩ (by decide +kernel) (by decide +kernel)
+example : mpInside ⟨3, 3⟩ [sqHole, sqInHole] = true ∧ mpInside ⟨9/4, 9/4⟩ [sqHole, sqInHole] = false := by
+  decide +kernel
+
+example : onLines ⟨1, 1⟩ (clip E1 [sq] [[⟨0, 1⟩, ⟨5, 1⟩]] false) = mpInside ⟨1, 1⟩ [sq] :=
+  (clip_partition_valid E1_spec [sq] [[⟨0, 1⟩, ⟨5, 1⟩]] ⟨1, 1⟩ (by decide +kernel) (by decide +kernel) rfl
+    (by decide +kernel)).1
+
+example :
+    sampleMeasure [(⟨1, 1⟩, 3)] (fun p => mpInside p (booleanOp E1 [sqHole, sqInHole] [sq] .difference)) =
+    sampleMeasure [(⟨1, 1⟩, 3)] (fun p => mpInside p [sqHole, sqInHole]) -
+    sampleMeasure [(⟨1, 1⟩, 3)] (fun p => mpInside p (booleanOp E1 [sqHole, sqInHole] [sq] .intersection)) :=
+  (booleanOp_area_identities_valid E1_spec [sqHole, sqInHole] [sq] (by decide +kernel) (by decide +kernel)
+    (by intro p hp; rw [show p = ⟨1, 1⟩ from hp]; decide +kernel) (sample_far1 _)).1.2.1
 
 end Geo.Proofs.C04
